@@ -50,7 +50,7 @@ class apply_text_match_c:
         return spec_text_match(el, value)
 
 
-opaque("ContentLine", attrs={"params": "dict[str,list[str]]"})
+opaque("ContentLine", attrs={"params": "dict[str,list[str]]", "value": "str"})
 
 IS_NOT_DEFINED = "{urn:ietf:params:xml:ns:carddav}is-not-defined"
 TEXT_MATCH = "{urn:ietf:params:xml:ns:carddav}text-match"
@@ -62,10 +62,9 @@ def only_is_not_defined(el):
 
 
 def rendered(prop):
-    """The text a prop-filter's text-match is applied to.  The code uses str(content_line);
-    RFC 6352 means the property *value* - recorded as a known finding (DESIGN 6/C12), the
-    contract is stated over this rendering function."""
-    return str(prop)
+    """The text a prop-filter's text-match is applied to: the property value (RFC 6352 10.5.4).
+    (Structured values - N, ADR - are outside this contract: the attribute is typed str.)"""
+    return prop.value
 
 
 ghost("sub_ok", ["opaque:Element", "opaque:ContentLine"], "bool")
